@@ -294,7 +294,25 @@ func (f *fn) selector(x *ast.SelectorExpr) (val, error) {
 			return val{}, f.errf(x, "field %s of layout %s is not understood", x.Sel.Name, l.name)
 		}
 		if lf.array {
-			return val{}, f.errf(x, "array field %s.%s must be indexed by a constant", l.name, lf.name)
+			// the whole array field as a value: the tuple of its slots
+			if lf.count > 4 {
+				return val{}, f.errf(x, "array field %s.%s as a value is not understood (more than 4 elements)", l.name, lf.name)
+			}
+			d, err := f.expr(x.X)
+			if err != nil {
+				return val{}, err
+			}
+			var parts []string
+			var ts []*cty
+			for k := 0; k < lf.count; k++ {
+				t, ct, err := slotRead(d.term, lf.off+k, lf.scalar)
+				if err != nil {
+					return val{}, f.errf(x, "%v", err)
+				}
+				parts = append(parts, t)
+				ts = append(ts, ct)
+			}
+			return val{term: tuple(parts), pre: d.pre, t: &cty{k: kTuple, elems: ts}}, nil
 		}
 		d, err := f.expr(x.X)
 		if err != nil {
